@@ -828,6 +828,18 @@ fn run(op_full: &str, a: &[&str]) -> String {
             Ok(v) => format!("ok {}", sv(&v)),
             Err(_) => "err Other".into(),
         },
+        // an array of <n> nulls / booleans built through the Value API, encoded and decoded again by BOTH decoders: for counts the
+        // list-based model cannot hold (2^24 and beyond: the count no longer fits the three low header bytes). Implementation only.
+        "big_count_roundtrip" => {
+            let n: usize = a[0].parse().unwrap();
+            let v = Value::Array((0..n).map(|i| if i % 3 == 0 { Value::Null } else { Value::Bool(i % 3 == 1) }).collect());
+            let bytes = v.to_vec();
+            let head = hex(&bytes[..8.min(bytes.len())]);
+            let d1 = jsonb::from_slice(&bytes).map(|w| w == v && w.to_vec() == bytes);
+            let d2 = jsonb::parse_jsonb(&bytes).map(|w| w == v);
+            format!("ok len={} head={} from_slice={} parse_jsonb={}", bytes.len(), head,
+                    match d1 { Ok(b) => b.to_string(), Err(_) => "err".into() }, match d2 { Ok(b) => b.to_string(), Err(_) => "err".into() })
+        }
         "reencode" => match jsonb::from_slice(&unhex(a[0])) {
             Ok(v) => format!("ok {}", hex(&v.to_vec())),
             Err(_) => "err Other".into(),
